@@ -298,7 +298,13 @@ func (x *Exprer) compute(v ssa.Value) *Expr {
 		loop := false
 		for _, e := range v.Edges {
 			ee := x.E(e)
-			if ee.Contains(func(s *Expr) bool { return s.Op == "self" }) {
+			if ee.Contains(func(s *Expr) bool {
+				if s.Op != "self" {
+					return false
+				}
+				_, cellMarker := stripConv(s.Val).(*ssa.Alloc) // "_" inside a cell's own initialiser is not a cycle
+				return !cellMarker
+			}) {
 				loop = true // loop-carried edge
 				continue
 			}
